@@ -13,9 +13,8 @@ Variable F : opts.
 Definition ckey (k : atom) : atom :=
   if cleaning F then match clean_key F k with Ok ck => ck | Err _ => k end else k.
 
-(* a key the dict comparison can handle: cleanable (K8) and printable in a path (F5) *)
-Definition key_ok (k : atom) : bool :=
-  (negb (cleaning F) || key_cleanable F k) && (o_strty F || negb (is_bytes k)).
+(* a key the dict comparison can handle: cleanable (K8) *)
+Definition key_ok (k : atom) : bool := negb (cleaning F) || key_cleanable F k.
 
 (* the kept keys of a dict: pairwise different for Python, all ok, pairwise different after cleaning *)
 Definition keys_good (ks : list atom) : bool :=
@@ -77,7 +76,6 @@ Qed.
 Lemma ckey_clean : forall k, cleaning F = true -> key_ok k = true -> clean_key F k = Ok (ckey k).
 Proof.
   intros k Hc H. unfold key_ok in H. rewrite Hc in H. cbn [negb orb] in H.
-  apply andb_true_iff in H. destruct H as [H _].
   apply clean_key_ok in H. destruct H as [ck H]. unfold ckey. rewrite Hc, H. reflexivity.
 Qed.
 
@@ -133,18 +131,6 @@ Proof.
     split; [reflexivity|]. split.
     + rewrite (map_ext ckey (fun k => k)); [symmetry; apply map_id|]. intros k. apply ckey_noclean. exact Hc.
     + split; intros k _; rewrite (ckey_noclean k Hc); reflexivity.
-Qed.
-
-(* a clean key is never bytes when the key is ok *)
-Lemma ckey_not_bytes : forall k, key_ok k = true -> is_bytes (ckey k) = false.
-Proof.
-  intros k H. unfold key_ok in H. apply andb_true_iff in H. destruct H as [H1 H2].
-  unfold ckey. destruct (cleaning F) eqn:Hc.
-  - cbn [negb orb] in H1. destruct k as [|x|x|x|s|s]; cbn [clean_key key_cleanable] in *;
-      try (destruct (eff_sig F); [reflexivity|discriminate]); try reflexivity.
-    destruct (o_strty F); [reflexivity|]. cbn in H2. discriminate.
-  - unfold cleaning in Hc. apply orb_false_iff in Hc. destruct Hc as [Hc _]. apply orb_false_iff in Hc. destruct Hc as [Hs _].
-    rewrite Hs in H2. cbn [orb] in H2. apply negb_true_iff in H2. exact H2.
 Qed.
 
 (* related keys have Python-equal clean keys *)
